@@ -1206,6 +1206,68 @@ fn family_review(g: &mut G, rng: &mut Rng, thorough: bool) {
         g.ctx.end_case(g.eng);
     }
 
+    // ---- C04 (review batch 2, #1): hostile datagrams that reuse the FDT Instance ID / TOIs of the
+    //      genuine session that follows (no cleanup in between): the session must still be delivered
+    for variant in 0..5u8 {
+        for once in [true, false] {
+            let lens = [rng.range(1, 100) as usize, rng.range(1, 100) as usize];
+            let s = session(rng, T0 + SEC, true, 3600, 1, 1, &lens, 32, 8, true, 255);
+            g.cfg2(&format!("same-id-poison-v{}-once{}", variant, once as u8), 1, false, true, 1 << 16, once, true, 0, false, 0);
+            g.ctx.nontrivial(&format!("same-id-poison {} {}", variant, once));
+            g.ctx.count("malformed:same-id-poison");
+            let cls = match variant {
+                0 => {
+                    // one forged datagram: FDT id 1, single symbol, not XML -> Err("Fail to decode FDT")
+                    for p in fdt_pkts(b"this is not an FDT instance", 1, 512, None) {
+                        g.push(&p, T0);
+                    }
+                    "C04:fdt-id-poisoned-by-failed-instance"
+                }
+                1 => {
+                    // forged complete instance id 1 that is already expired (no SCT, Expires in the past)
+                    let f = fdt_xml(&ntp_secs(T0 - 7200 * SEC).to_string(), &[("900".to_string(), 10)], 16, 8);
+                    for p in fdt_pkts(&f, 1, 512, None) {
+                        g.push(&p, T0);
+                    }
+                    "C04:fdt-id-poisoned-by-expired-instance"
+                }
+                2 => {
+                    // forged instance id 1 whose Expires is not a 32-bit number ("expired" for ever)
+                    let f = fdt_xml("99999999999", &[("900".to_string(), 10)], 16, 8);
+                    for p in fdt_pkts(&f, 1, 512, None) {
+                        g.push(&p, T0);
+                    }
+                    "C04:fdt-id-poisoned-by-expired-instance"
+                }
+                3 => {
+                    // one forged datagram on id 1 announcing another transfer length (2^40): the instance
+                    // keeps the forged OTI and the genuine packets keep it alive
+                    let p = mk_pkt(0, Some(1), 32, 8, true, 1u64 << 40, 0, 0, vec![0x3c; 32], false, None);
+                    g.push(&p, T0);
+                    "C04:fdt-id-blocked-by-forged-fti"
+                }
+                _ => {
+                    // the same with another symbol size / block length only
+                    let p = mk_pkt(0, Some(1), 8, 3, true, 200, 0, 0, vec![0x3c; 8], false, None);
+                    g.push(&p, T0);
+                    "C04:fdt-id-blocked-by-forged-fti"
+                }
+            };
+            g.probe();
+            // three carousel rounds of the genuine session, a (non-elapsed) cleanup after each
+            for round in 0..3i64 {
+                for p in &s.pkts {
+                    g.push(&p.0, p.1 + round * 10 * SEC);
+                }
+                g.cleanup(T0 + (round * 10 + 9) * SEC, false);
+            }
+            for (toi, len) in &s.objs {
+                g.expect_c(*toi, *len, cls);
+            }
+            g.end();
+        }
+    }
+
     // ---- C17 (seeded C17-4): idle sessions with a pending object at the MultiReceiver (oracle only)
     {
         g.cfg2("idle-sessions", 0, true, false, 1 << 16, true, true, 0, false, 0);
